@@ -79,13 +79,15 @@ def probes_for(file, header, fn, pid=None):
     if f.startswith("src/ark_curve/r1cs"):
         # C14 is about adversarial hints only; C13 about the honest prover
         if pid == "C14":
-            return [("r1cs", "r1cs.hints"), ("r1cs", "r1cs.alloc")]
+            return [("r1cs", "r1cs.hints"), ("r1cs", "r1cs.alloc"), ("r1cs", "r1cs.unforced")]
         if pid == "C13":
-            return [("r1cs", "r1cs.d6"), ("r1cs", "r1cs.lazy")]
-        return [("r1cs", "r1cs.d6"), ("r1cs", "r1cs.hints"), ("r1cs", "r1cs.lazy"), ("r1cs", "r1cs.alloc")]
+            return [("r1cs", "r1cs.d6"), ("r1cs", "r1cs.unforced"), ("r1cs", "r1cs.lazy")]
+        return [("r1cs", "r1cs.d6"), ("r1cs", "r1cs.hints"), ("r1cs", "r1cs.unforced"), ("r1cs", "r1cs.lazy"), ("r1cs", "r1cs.alloc")]
+    if (f.endswith("ark_curve/encoding.rs") or f.endswith("ark_curve/serialize.rs")) and not fn:
+        return [("ark", "curve.decode"), ("ark", "curve.encode"), ("ark", "curve.ctor")]      # file-level watch
     if f.endswith("ark_curve/encoding.rs") or f.endswith("ark_curve/serialize.rs"):
         if re.search(r'decompress|try_from|deserialize', fn) or "TryFrom" in h or "Deserialize" in h:
-            return [("ark", "curve.decode")]
+            return [("ark", "curve.decode"), ("ark", "curve.ctor")]
         if fn == "negate":
             return [("ark", "curve.ops")]
         return [("ark", "curve.encode")]
@@ -97,6 +99,8 @@ def probes_for(file, header, fn, pid=None):
         return [("ark", "curve.sqrt")]
     if f.endswith("ark_curve/bls12_377.rs"):
         return [("ark", "bls")]
+    if ("ark_curve/element" in f or f.endswith("ark_curve/rand.rs")) and not fn:
+        return [("ark", "curve.ctor"), ("ark", "curve.ops"), ("ark", "curve.eqhash"), ("ark", "curve.mul")]   # file-level watch
     if "ark_curve/element" in f or f.endswith("ark_curve/rand.rs"):
         if re.search(r'^(eq|hash|is_zero|is_identity)$', fn):
             return [("ark", "curve.eqhash")]
